@@ -321,6 +321,19 @@ async def probe_crash_state(world, node, expect_before, expect_after, violate, c
                 if len(opts) == len(states) and fl not in opts:
                     violate("acked_flags_lost", mailbox=name, uid=uid, tok=tok, got=sorted(fl), acknowledged=[sorted(o) for o in opts])
                     break
+    # conservation across mailboxes: a message that is acknowledged in the state before the op in flight and that is in
+    # the state after it as well - wherever: RENAME INBOX and MOVE take it to another mailbox - is somewhere
+    if expect_before and expect_after and seen is not None:
+        count("c11_conservation")
+        found = set()
+        for nm_, (uvv_, msgs_) in seen.items():
+            found.update(t for _, t in msgs_ if t is not None)
+        acked_before = {m[1] for st in expect_before.values() if not st["uncertain"] for m in st["msgs"] if m[3] and m[1] is not None}
+        in_after = {m[1] for st in expect_after.values() for m in st["msgs"] if m[1] is not None}
+        unsure = any(st["uncertain"] for st in list(expect_before.values()) + list(expect_after.values()))
+        lost = sorted((acked_before & in_after) - found)
+        if lost and not unsure:
+            violate("acked_message_lost", tok=lost[0], anywhere=True, lost=lost[:6], mailboxes=sorted(seen))
     # every mailbox the acknowledged model has must still be there
     for name in sorted(set(expect_before) & set(expect_after)):
         if name not in listed and not expect_before[name]["noselect"] and not expect_after[name]["noselect"]:
@@ -524,6 +537,9 @@ def fixed_histories():
     H.append(("expunge-middle-last", {}, [sel, S(op="store", uid=False, set={"pos": [2]}, how="+", flags=["\\Deleted"], silent=True), S(op="expunge"),
               S(op="store", uid=False, set={"raw": "*"}, how="+", flags=["\\Deleted"], silent=True), S(op="expunge"), S(op="append", mbox="inbox", tok=103, flags=[], date=1650000003)]))
     H.append(("copy", {}, [sel, S(op="copy", uid=False, set={"pos": [1, 2]}, dst="work"), S(op="copy", uid=True, set={"pos": [1]}, dst="inbox")]))
+    H.append(("rename-inbox", {}, [S(op="append", mbox="inbox", tok=105, flags=["\\Answered"], date=1650000005), S(op="append", mbox="inbox", tok=106, flags=[], date=1650000006), sel,
+              S(op="store", uid=False, set={"pos": [1]}, how="+", flags=["\\Flagged", "\\Seen"], silent=True), S(op="rename", name="inbox", to="old"),
+              S(op="append", mbox="inbox", tok=107, flags=[], date=1650000007)]))
     H.append(("move", {}, [sel, S(op="move", uid=False, set={"pos": [1]}, dst="work"), S(op="move", uid=True, set={"all": True}, dst="work")]))
     H.append(("pack", {"knobs": {"pack_limit": 3, "pack_ratio": 0.95}, "sparse": True}, [sel, S(op="store", uid=False, set={"pos": [1]}, how="+", flags=["\\Deleted"], silent=True), S(op="expunge"),
               {"actor": "driver", "op": "wait", "dt": 12.0}, S(op="noop"), {"actor": "driver", "op": "wait", "dt": 12.0}, S(op="append", mbox="inbox", tok=104, flags=[], date=1650000004)]))
@@ -572,7 +588,7 @@ def generate(seed, tier, index, kf):
         prog["name"] = f"random-{hseed}"
         prog["latency"] = {"exec": "zero", "db": "zero", "net": "zero"}
     # every third history: each crash state is also restarted after an MH delivery made while the server was dead
-    prog["down_delivery"] = hist_no % 3 == 1
+    prog["down_delivery"] = hist_no % 3 == 1 or prog.get("name") in ("expunge-middle-last", "move", "rename-inbox", "pack")
     prog["crash_slice"] = (k, SLICES)
     prog["seed"] = prog.get("seed", seed)
     return prog
